@@ -64,6 +64,7 @@ SELF_FIELDS = {
     "SHAGA": {"_pop_size": "int64", "_H_size": "int64", "_H_MR": "float64[:]", "_H_CR": "float64[:]", "_str_len": "int64",
               "_fitness_i": "float64[:]", "_population_g_i": "int8[:, :]"},
     "SelfCGA": {"_K": "float64", "_iters": "int64"},
+    "GeneticAlgorithm": {"_fitness_scale_i": "float64[:]", "_fitness_rank_i": "float64[:]", "_population_g_i": "int8[:, :]"},
     "jDE": {"_pop_size": "int64", "_F": "float64[:]", "_CR": "float64[:]", "_t_F": "float64", "_t_CR": "float64", "_F_min": "float64", "_F_max": "float64"},
 }
 METHOD_TARGETS_0 = [
@@ -86,13 +87,24 @@ METHOD_TARGETS_0 = [
     ("optimizers/_shade.py", "SHADE", "_get_new_individ_g", "SHADE_get_new_individ_g", "float64[:](float64[:], float64, float64)", {}),
     ("optimizers/_shaga.py", "SHAGA", "_get_new_individ_g", "SHAGA_get_new_individ_g", "int8[:](int8[:], float64, float64)", {}),
     ("optimizers/_differentialevolution.py", "DifferentialEvolution", "_get_new_individ_g", "DE_get_new_individ_g", "float64[:](float64[:], float64, float64)", {}),
+    ("optimizers/_geneticalgorithm.py", "GeneticAlgorithm", "_get_new_individ_g", "GA_get_new_individ_g", "int8[:]()", {}),
 ]
 METHOD_TARGETS = [t for t in METHOD_TARGETS_0]
 # a function-valued local bound by a pinned statement becomes a leading function parameter: (statement text, Coq type, result type, argument types)
 FUNC_LOCALS = {"DE_get_new_individ_g": ("mutation_func = self._mutation_pool[self._specified_mutation]",
                                         "list Q -> list Q -> list (list Q) -> Q -> M (list Q)", "float64[:]", ["float64[:]", "float64[:]", "float64[:, :]", "float64"])}
+# pool entries unpacked by pinned statements become leading parameters (a function and its configured parameters): name -> type
+_SELF = "list Q -> list Q -> Z -> Z -> M (list Z)"
+POOL_LOCALS = {"GA_get_new_individ_g": [
+    ("selection_func, tour_size = self._selection_pool[specified_selection]",
+     [("selection_func", ("F", _SELF, "int64[:]", ["float64[:]", "float64[:]", "int64", "int64"])), ("tour_size", "int64")]),
+    ("crossover_func, quantity = self._crossover_pool[specified_crossover]",
+     [("crossover_func", ("F", "list (list Z) -> list Q -> list Q -> M (list Z)", "int8[:]", ["int8[:, :]", "float64[:]", "float64[:]"])), ("quantity", "int64")]),
+    ("mutation_func, proba, is_constant_rate = self._mutation_pool[specified_mutation]",
+     [("mutation_func", ("F", "list Z -> Q -> M (list Z)", "int8[:]", ["int8[:]", "float64"])), ("proba", "float64"), ("is_constant_rate", "boolean")]),
+]}
 C07_METHODS = ["SHADE_get_new_individ_g", "DE_get_new_individ_g"]
-C06_METHODS = ["SHAGA_get_new_individ_g"]
+C06_METHODS = ["SHAGA_get_new_individ_g", "GA_get_new_individ_g"]
 DICT_PARAMS = {"SelfCGA_get_new_proba": ("proba_dict", "operator")}
 C14_METHODS = ["SelfCGA_get_new_proba"]
 # how a call site selects a specialisation: (callee, sorted names of the arguments given) -> output name
@@ -538,6 +550,8 @@ class Translator:
                 return f"(gatherZ {c} {i})", L(Z)
             if t == L(Q):
                 return f"(gatherQz {c} {i})", L(Q)
+        if ti == L(Z) and is_list(t) and is_list(t[1]):
+            return f"(gatherR {c} {i})", t          # rows picked by an index array (copies)
         if ti == L(L(Z)) and t == L(Q):
             return f"(gather2Q {c} {i})", L(L(Q))
         raise Untranslatable(e, f"index of type {ti} into {t}")
@@ -1268,6 +1282,16 @@ class Translator:
                     _, coq_t, fr, fa = FUNC_LOCALS[oname]
                     ftype = ("F", coq_t, sig_type(ast.parse(fr).body[0].value), tuple(sig_type(ast.parse(a_).body[0].value) for a_ in fa))
                     field_ts = [ftype] + field_ts
+                if oname in POOL_LOCALS:
+                    pts = []
+                    for _, binds in POOL_LOCALS[oname]:
+                        for _, t_ in binds:
+                            if isinstance(t_, tuple):
+                                pts.append(("F", t_[1], sig_type(ast.parse(t_[2]).body[0].value), tuple(sig_type(ast.parse(a_).body[0].value) for a_ in t_[3])))
+                            else:
+                                pts.append(sig_type(ast.parse(t_).body[0].value))
+                    field_ts = pts + field_ts
+                    arg_ts = []           # the selecting names are consumed by the pool look-ups
                 MANUAL_PARSED[oname] = (ret_t, field_ts + arg_ts)
                 self.out.append((oname, self.function(new, rel), None, rel, line))
                 method_fields[(cls, fname_)] = (oname, fields)
@@ -1417,6 +1441,25 @@ def specialise(node, cls, out_name, consts, method_fields):
         for x in ast.walk(ast.Module(body=stmts_in, type_ignores=[])):
             if isinstance(x, ast.Name) and x.id == fname_local and not isinstance(x.ctx, ast.Load):
                 raise Untranslatable(x, "the strategy function is re-bound")
+    pool_locals = POOL_LOCALS.get(out_name, [])
+    pool_names = []
+    for text, binds in pool_locals:
+        pinned = [st for st in stmts_in if ast.unparse(st) == text]
+        if len(pinned) != 1:
+            raise Untranslatable(node, "the statement unpacking a pool entry is no longer: " + text)
+        stmts_in = [st for st in stmts_in if st is not pinned[0]]
+        pool_names += [n_ for n_, _ in binds]
+    if pool_locals:
+        # the names selecting the pool entries are only used by the pinned statements
+        sel_names = {x.id for text, _ in pool_locals for x in ast.walk(ast.parse(text)) if isinstance(x, ast.Name)} - set(pool_names) - {"self"}
+        for x in ast.walk(ast.Module(body=stmts_in, type_ignores=[])):
+            if isinstance(x, ast.Name) and x.id in sel_names:
+                raise Untranslatable(x, f"'{x.id}' is used outside the pool look-ups")
+            if isinstance(x, ast.Name) and x.id in pool_names and not isinstance(x.ctx, ast.Load) and \
+                    not any(isinstance(t_, tuple) and n_ == x.id for _, b_ in pool_locals for n_, t_ in b_ if False):
+                if any(n_ == x.id and isinstance(t_, tuple) for _, b_ in pool_locals for n_, t_ in b_):
+                    raise Untranslatable(x, "a pool function is re-bound")
+        kept = [k_ for k_ in kept if k_ not in sel_names]
     for st in stmts_in:
         r = fold(Rw().visit(st))
         for r1 in (r if isinstance(r, list) else [r]):
@@ -1427,7 +1470,7 @@ def specialise(node, cls, out_name, consts, method_fields):
                 if leftover:
                     raise Untranslatable(r1, f"use of the dict '{dict_param[0]}' outside the modelled forms")
             body.append(r1)
-    new_params = ([func_local[0].split(" = ")[0]] if func_local is not None else []) + ["self" + f_ for f_ in used_fields] + kept
+    new_params = ([func_local[0].split(" = ")[0]] if func_local is not None else []) + pool_names + ["self" + f_ for f_ in used_fields] + kept
     fd = ast.FunctionDef(name=out_name, args=ast.arguments(posonlyargs=[], args=[ast.arg(arg=p) for p in new_params], kwonlyargs=[], kw_defaults=[], defaults=[]),
                          body=body, decorator_list=[], lineno=node.lineno, col_offset=0)
     ast.fix_missing_locations(fd)
